@@ -226,7 +226,7 @@ impl SExec {
                             Ev { contract: addr_bytes(&gas), topics: vec![sym("gas_refunded"), sstr(&id), saddr(&self.p[ri]), token_sc(&self.tokens[t], a)], data: ScVal::Void }
                         };
                         let got = self.gas_events(&res.events);
-                        ctx.check(got.len() == 1 && *got[0] == exp_ev, &["C14"], &format!("{}/wrong-event", func), || format!("expected one {:?}, got {:?}", exp_ev, got));
+                        ctx.check(crate::judge::events_match(&got.iter().map(|e| (*e).clone()).collect::<Vec<_>>(), &[exp_ev.clone()], &["gas_paid", "gas_added", "gas_collected", "gas_refunded"]), &["C14"], &format!("{}/wrong-event", func), || format!("expected one {:?}, got {:?}", exp_ev, got));
                     }
                 }
             }
@@ -257,7 +257,7 @@ impl SExec {
                     return;
                 }
                 let exp = vec![Ev { contract: addr_bytes(&gas), topics: vec![sym("ownership_transferred"), saddr(&self.p[o]), saddr(&self.p[ti])], data: svec(vec![]) }];
-                ctx.check(res.events == exp, &["C06"], "role-transfer/wrong-event", || format!("{:?}", res.events));
+                ctx.check(crate::judge::events_match(&res.events, &exp, &[]), &["C06"], "role-transfer/wrong-event", || format!("{:?}", res.events));
                 if ti != o {
                     self.m.former_owner = Some(o);
                 }
@@ -339,7 +339,7 @@ impl SExec {
         self.m.held[t] += a;
         self.m.paid_in[t] += a;
         let got = self.gas_events(&res.events);
-        ctx.check(got.len() == 1 && *got[0] == exp_ev, &["C14"], &format!("{}/wrong-event", func), || format!("expected one {:?}, got {:?}", exp_ev, got));
+        ctx.check(crate::judge::events_match(&got.iter().map(|e| (*e).clone()).collect::<Vec<_>>(), &[exp_ev.clone()], &["gas_paid", "gas_added", "gas_collected", "gas_refunded"]), &["C14"], &format!("{}/wrong-event", func), || format!("expected one {:?}, got {:?}", exp_ev, got));
     }
 
     pub fn invariants(&mut self, ctx: &mut Ctx) {
